@@ -63,8 +63,8 @@ CHECKS = {
          "The file is written front to back in one pass, so prefixes are exactly the crash states. Only a Decompressor handle (not a bare container handle) counts as acceptance.",
          "DESIGN.md §6 C14"),
  "C15": ("fault_enumeration", "fault injection by file-size limit at enumerated byte offsets of generated archives (real CLI and library path in child processes)",
-         "16 (quick) / 160 (thorough) archives x ~30 / ~250 injection offsets chosen from the independent parser's directory (part starts and interiors, footer start, directory, the 8-byte length) plus random ones; thorough also all offsets of 16 small archives. Control runs at and above the final size show the injection bites exactly below it. Stage big-archive: one ~4.6 MiB archive (above the 4 MiB write buffer, so parts are written before the final flush and a failing write surfaces in add_part / worker threads) x 16 / 96 limits around 1, 4 MiB and the end.",
-         "Fault model: first failing write at byte N and every later write fails (EFBIG as stand-in for ENOSPC). Only the big-archive stage exceeds the 4 MiB write buffer.",
+         "16 (quick) / 160 (thorough) archives x ~30 / ~250 injection offsets chosen from the independent parser's directory (part starts and interiors, footer start, directory, the 8-byte length) plus random ones; thorough also all offsets of 16 small archives. Control runs at and above the final size show the injection bites exactly below it. Stage pipe-output: `ragc create -o <fifo>` with a reader that leaves before the first write (EPIPE) or consumes everything (control). Stage big-archive: one ~4.6 MiB archive (above the 4 MiB write buffer, so parts are written before the final flush and a failing write surfaces in add_part / worker threads) x 16 / 96 limits around 1, 4 MiB and the end.",
+         "Fault model: first failing write at byte N and every later write fails (EFBIG as stand-in for ENOSPC; EPIPE on a FIFO). Only the big-archive stage exceeds the 4 MiB write buffer.",
          "DESIGN.md §6 C15"),
  "C16": ("exploration", "grammar-based generation of byte-level FASTA texts driven through the real binary; oracle = reject, or list + extract everything equal to the normalised input",
          "480 (quick) / 10^4 (thorough) multi-file and PanSN inputs with non-IUPAC letters in later (LZ-encoded) records, header-only records, blank lines in every position, CR/LF, missing final newline, digits and gap characters.",
